@@ -356,6 +356,8 @@ def mk_sub(base, idx):
                 return ('cols', rows, tuple(x[1] for x in c[1]))
             if c == SLICE_ALL:
                 return rows
+            if lab == 'pos':
+                return ('poscol', rows, c)      # column addressed by position
             return ('sub', rows, c)
         r = _rowsel(obj, idx, lab)
         return r
@@ -566,7 +568,7 @@ def root(t):
         tg = tag(t)
         if tg == 'attr' and tag(t[1]) == 'p' and t[1][1] == 'self':
             return t    # an attribute of the instance is an object of its own
-        if tg in ('attr', 'col', 'cols', 'sub', 'acc', 'cell', 'rows', 'vals', 'index', 'columns'):
+        if tg in ('attr', 'col', 'cols', 'sub', 'acc', 'cell', 'rows', 'vals', 'index', 'columns', 'poscol'):
             t = t[2] if tg == 'acc' else t[1]
         elif tg in ('mask', 'upd'):
             t = t[1]
